@@ -10,6 +10,7 @@ import (
 	"time"
 
 	"github.com/dadrus/heimdall/verif/engine"
+	"github.com/dadrus/heimdall/verif/props/fsstart"
 	"github.com/dadrus/heimdall/verif/env"
 )
 
@@ -165,6 +166,9 @@ func run(c *engine.Ctx) {
 
 	defer cleanup()
 	defer coll.flush(c)
+
+	// the file_system provider while it starts (real Start, real watcher, one callback of the initial load held)
+	fsstart.RunAll(c)
 
 	for _, pl := range plans(c, dir) {
 		if err := selfCheck(pl.sys); err != nil {
@@ -449,6 +453,12 @@ func systemByName(name, dir string) system {
 }
 
 func replay(c *engine.Ctx, raw json.RawMessage) {
+	if fsstart.IsCase(raw) {
+		fsstart.Replay(c, raw)
+
+		return
+	}
+
 	var cs Case
 	if err := json.Unmarshal(raw, &cs); err != nil {
 		c.Infra("bad replay: %v", err)
